@@ -4,6 +4,7 @@ import (
 	"context"
 	"errors"
 	"strings"
+	"sync/atomic"
 	"time"
 
 	"github.com/mimecast/dtail/internal"
@@ -30,6 +31,11 @@ type Aggregate struct {
 	query *mapr.Query
 	// The mapr log format parser
 	parser logformat.Parser
+	// Number of lines channels currently handed back to NextLinesCh by a goroutine.
+	requeuing int32
+	// MoreLinesChExpected tells whether lines channels may still be added to NextLinesCh
+	// (e.g. files of the session still waiting for a free read slot). Optional.
+	MoreLinesChExpected func() bool
 }
 
 // NewAggregate return a new server side aggregator.
@@ -130,8 +136,13 @@ func (a *Aggregate) nextLine() (line *line.Line, ok bool, noMoreChannels bool) {
 			case a.linesCh = <-a.NextLinesCh:
 				vhook.At("agg.next", a)
 			default:
-				noMoreChannels = true
-				vhook.At("agg.exit", a)
+				// Only done when no lines channel is on its way back to NextLinesCh
+				// and no reader is still about to hand in its channel.
+				if atomic.LoadInt32(&a.requeuing) == 0 &&
+					(a.MoreLinesChExpected == nil || !a.MoreLinesChExpected()) {
+					noMoreChannels = true
+					vhook.At("agg.exit", a)
+				}
 			}
 		}
 	default:
@@ -140,7 +151,13 @@ func (a *Aggregate) nextLine() (line *line.Line, ok bool, noMoreChannels bool) {
 		case newLinesCh := <-a.NextLinesCh:
 			oldLinesCh := a.linesCh
 			vhook.At("agg.swap", a)
-			go func() { vhook.At("agg.requeue", a); a.NextLinesCh <- oldLinesCh; vhook.At("agg.requeued", a) }()
+			atomic.AddInt32(&a.requeuing, 1)
+			go func() {
+				vhook.At("agg.requeue", a)
+				a.NextLinesCh <- oldLinesCh
+				atomic.AddInt32(&a.requeuing, -1)
+				vhook.At("agg.requeued", a)
+			}()
 			a.linesCh = newLinesCh
 		default:
 			// No new lines channel found.
